@@ -445,7 +445,10 @@ fn imeta_case(mime: u8, filename: &str, size: u16, muts: &[u8], rep: &mut CaseRe
                     v.push(format!("{key} {val}"));
                 }
             };
-            let what: &str = match m % 8 {
+            let what: &str = match m % 11 {
+                8 => { set(&mut v, "x", Some(format!("{}\u{e9}{}", "ab".repeat(15), "ab".repeat(16)))); "x of 64 bytes with a two-byte character inside" }
+                9 => { set(&mut v, "n", Some(format!("a\u{20ac}{}", "ab".repeat(10)))); "n of 24 bytes with a three-byte character inside" }
+                10 => { set(&mut v, "x", Some(format!("{}\u{1F600}", "ab".repeat(30)))); "x of 64 bytes ending in a four-byte character" }
                 0 => { set(&mut v, "x", Some("ab".repeat(31))); "x of 31 bytes" }
                 1 => { set(&mut v, "x", Some("zz".repeat(32))); "x not hex" }
                 2 => { set(&mut v, "n", Some("ab".repeat(11))); "n of 11 bytes" }
@@ -539,7 +542,7 @@ pub fn main(args: &Args) -> i32 {
                 12 => (ext, prop::collection::vec(ext_mut.clone(), 0..6)).prop_map(|(v, muts)| Case::Extension { v, muts }),
                 2 => (prop::collection::vec(any::<u8>(), 0..5), any::<bool>(), prop::collection::vec(0u8..12, 0..6)).prop_map(|(relays, protected, muts)| Case::KeyPackage { relays, protected, muts }),
                 2 => ("[ -~]{0,30}", prop::collection::vec(0u8..7, 0..5)).prop_map(|(name, muts)| Case::Welcome { name, muts }),
-                2 => (0u8..5, prop_oneof![3 => "[a-zA-Z0-9 _.\\-]{1,40}", 1 => "\\PC{1,30}"], 0u16..3000, prop::collection::vec(0u8..8, 0..5)).prop_map(|(mime, filename, size, muts)| Case::Imeta { mime, filename, size, muts }),
+                2 => (0u8..5, prop_oneof![3 => "[a-zA-Z0-9 _.\\-]{1,40}", 1 => "\\PC{1,30}"], 0u16..3000, prop::collection::vec(0u8..11, 0..5)).prop_map(|(mime, filename, size, muts)| Case::Imeta { mime, filename, size, muts }),
             ]
         },
         exec,
